@@ -4,13 +4,14 @@ package imports
 
 import (
 	"strings"
+	"unicode"
 
 	rt "github.com/rogpeppe/go-internal/internal/verifrt"
 )
 
 // ---- reference evaluator written from the property text ----
 
-var vTagVocab = []string{"linux", "android", "amd64", "windows", "foo", "bar", "ignore", "cgo", "*"}
+var vTagVocab = []string{"linux", "android", "amd64", "windows", "foo", "bar", "ignore", "cgo", "*", "caf\u00e9"}
 
 func vSymTags() map[string]bool {
 	tags := map[string]bool{}
@@ -24,9 +25,10 @@ func vWellFormedTag(s string) bool {
 	if s == "" {
 		return false
 	}
-	for i := 0; i < len(s); i++ {
-		c := s[i]
-		ok := c >= 'a' && c <= 'z' || c >= 'A' && c <= 'Z' || c >= '0' && c <= '9' || c == '_' || c == '.'
+	// letters and digits (of any script), underscore and dot
+	for _, c := range s {
+		ok := c >= 'a' && c <= 'z' || c >= 'A' && c <= 'Z' || c >= '0' && c <= '9' || c == '_' || c == '.' ||
+			c >= 0x80 && (unicode.IsLetter(c) || unicode.IsDigit(c))
 		if !ok {
 			return false
 		}
@@ -87,7 +89,7 @@ func vLine(opts []string, tags map[string]bool) bool {
 // ---- generators ----
 
 var vNeg = []string{"", "!", "!!"}
-var vTermTags = []string{"foo", "linux", "android", "ignore", "a-b", "", "bar", "386"}
+var vTermTags = []string{"foo", "linux", "android", "ignore", "a-b", "", "bar", "386", "caf\u00e9", "a\u00d7b"}
 
 func vGenTerm(ntags int) string {
 	return vNeg[rt.IntRange(0, 2)] + vTermTags[rt.IntRange(0, ntags-1)]
